@@ -9,6 +9,7 @@ import (
 	"fmt"
 	"math/rand"
 	"sort"
+	"time"
 
 	"0chain.net/chaincore/block"
 	"0chain.net/chaincore/client"
@@ -20,6 +21,7 @@ import (
 	"github.com/0chain/common/core/currency"
 
 	vc "verif/harness/common"
+	"verif/harness/minerworld"
 	"verif/harness/rec"
 	"verif/harness/world"
 )
@@ -28,16 +30,19 @@ func init() { vc.Register("binding", Run) }
 
 type drv struct {
 	w  *world.World
+	mw *minerworld.MinerWorld
 	rc *rec.Recorder
 	r  *rand.Rand
 }
 
 func Run(a vc.Args) {
-	w := world.New(world.Options{Clients: 4})
-	defer w.Close()
+	// a real miner chain: transactions are also validated on the block path (miner.ValidateTransactions)
+	mw := minerworld.New(world.Options{Clients: 4})
+	defer mw.Close()
+	w := mw.World
 	rc := rec.New(a.Out)
 	defer rc.Close()
-	d := &drv{w: w, rc: rc}
+	d := &drv{w: w, mw: mw, rc: rc}
 	id := 0
 	per := a.N // objects per behaviour
 	if per <= 0 {
@@ -203,9 +208,38 @@ func (d *drv) txn(steps []string) {
 		why = why[:80]
 	}
 	vf := violFields(alt)
-	d.rc.Emit(rec.M{"ev": "Validate", "kind": "txn", "steps": steps, "alt": sorted(alt), "accepted": accepted,
+	d.rc.Emit(rec.M{"ev": "Validate", "kind": "txn", "path": "submit", "steps": steps, "alt": sorted(alt), "accepted": accepted,
 		"hash_changed": t.ComputeHash() != origHash, "why": why, "viol_fields": vf, "ttype": t.TransactionType},
-		fmt.Sprintf("txn/%v/%v", steps, accepted), accepted)
+		fmt.Sprintf("txn/submit/%v/%v", steps, accepted), accepted)
+
+	// the block path: the same object inside a block received by a verifier (miner.ValidateTransactions:
+	// per-transaction checks without the individual signature check + aggregate signature verification)
+	mc := d.mw.MC
+	b := block.NewBlock(d.w.Chain.GetKey(), mc.GetCurrentRound()+1)
+	b.CreationDate = common.Now()
+	b.Hash = encryption.Hash(fmt.Sprintf("binding-block-%d", d.r.Int63()))
+	other, _, _ := d.genuineTxn()
+	for _, x := range []*transaction.Transaction{t, other} {
+		x.TransactionOutput = "out"
+		x.OutputHash = x.ComputeOutputHash()
+	}
+	b.Txns = []*transaction.Transaction{other, t}
+	baccepted, bwhy := true, ""
+	if err := t.ComputeProperties(); err != nil {
+		baccepted, bwhy = false, "props:"+err.Error()
+	} else {
+		ctx, cancel := context.WithTimeout(context.Background(), 20*time.Second)
+		if err := mc.ValidateTransactions(ctx, b); err != nil {
+			baccepted, bwhy = false, err.Error()
+		}
+		cancel()
+	}
+	if len(bwhy) > 80 {
+		bwhy = bwhy[:80]
+	}
+	d.rc.Emit(rec.M{"ev": "Validate", "kind": "txn", "path": "block", "steps": steps, "alt": sorted(alt), "accepted": baccepted,
+		"hash_changed": t.ComputeHash() != origHash, "why": bwhy, "viol_fields": vf, "ttype": t.TransactionType},
+		fmt.Sprintf("txn/block/%v/%v", steps, baccepted), baccepted)
 }
 
 func violFields(alt map[string]bool) string {
@@ -324,7 +358,7 @@ func (d *drv) block(steps []string) {
 	if len(why) > 80 {
 		why = why[:80]
 	}
-	d.rc.Emit(rec.M{"ev": "Validate", "kind": "block", "steps": steps, "alt": sorted(alt), "accepted": accepted,
+	d.rc.Emit(rec.M{"ev": "Validate", "kind": "block", "path": "receive", "steps": steps, "alt": sorted(alt), "accepted": accepted,
 		"hash_changed": b.ComputeHash() != origHash, "why": why, "viol_fields": violFields(alt), "ttype": 0},
 		fmt.Sprintf("block/%v/%v", steps, accepted), accepted)
 }
